@@ -79,8 +79,25 @@ class Engine:
             out = self.c.run(sc, S, "C15", want_trace=want_trace)
             v = out.get("violation")
             if v is not None:
+                sig = str(v.get("signature"))
+                delivered = any(k.startswith("interrupt:")
+                                for k in out.get("faults", {}))
+                # only what C14 itself states is forwarded: threads end, no
+                # exception, detections == those of the prefix read (line
+                # count), files; formatting, defaults, exit status, -q etc.
+                # are C15's business, and a run whose interrupt was never
+                # delivered is not a C14 run
+                c14_matter = sig.startswith("C15.4") or sig in (
+                    "C15.1:line_count", "C15.3:o_names", "C15.3:o_data",
+                    "C15.3:O_unreadable", "C15.3:O_header", "C15.3:O_data",
+                    "C15.3:join_data")
+                if not c14_matter or (not delivered
+                                      and not sig.startswith("C15.4")):
+                    out["violation"] = None
+                    out["probes"]["cli_violation_not_c14_matter"] = 1
+                    return out
                 v["clause"] = "C14.cli(" + v["clause"] + ")"
-                v["signature"] = "C14.cli:" + str(v.get("signature"))
+                v["signature"] = "C14.cli:" + sig
             if out.get("shape"):
                 out["shape"] = "cli:" + out["shape"]
             return out
